@@ -148,19 +148,34 @@ def bad_value(shape, i: int) -> Any:
     return {"int": "bad", "str": 5, "any": "anybad"}[ty]
 
 
+def derived_value(shape, i: int) -> Any:
+    """what the constructor of the model computes for the output-only field i (spec: DerivedV)"""
+    return {"int": 900 + i, "str": f"derived{i}", "any": "anyderived"}[shape[i - 1]["ty"]]
+
+
+def out_only(f: dict) -> bool:
+    return f.get("dir", "io") == "out"
+
+
 def make_dataclass_model(shape, names: Names, ctor_log: Optional[list] = None):
     fields = []
+    derived = {names.field(f["id"]): derived_value(shape, i) for i, f in enumerate(shape, start=1) if out_only(f)}
     for f in shape:
         n = names.field(f["id"])
-        if f["req"]:
+        if out_only(f):
+            fields.append((n, PYTYPES[f["ty"]], dataclasses.field(init=False)))
+        elif f["req"]:
             fields.append((n, PYTYPES[f["ty"]]))
         else:
             fac = names.factory(f["ty"])
             fields.append((n, names.pytype(f["ty"], False), dataclasses.field(default_factory=fac) if fac else dataclasses.field(default=names.default(f["ty"]))))
     ns = {}
-    if ctor_log is not None:
+    if ctor_log is not None or derived:
         def __post_init__(self):
-            ctor_log.append("post_init")
+            if ctor_log is not None:
+                ctor_log.append("post_init")
+            for k, v in derived.items():
+                setattr(self, k, v)
         ns["__post_init__"] = __post_init__
     return dataclasses.make_dataclass("Model", fields, kw_only=True, namespace=ns)
 
@@ -311,6 +326,8 @@ def render_data(d: dict, shape, names: Names) -> Any:
             return names.default(shape[d["f"] - 1]["ty"])
         if a == "absent":
             return ABSENT
+        if a == "derived":
+            return derived_value(shape, d["f"])
         if a == "odd":
             return ODD_OBJECTS[len(shape) % len(ODD_OBJECTS)]()
         if a == "falsy":
@@ -405,7 +422,10 @@ def program_features(case: dict) -> dict:
     ps = case["paths_in"]
     return {"aslist": sch["aslist"], "style": sch["style"], "trim": sch["trim"], "extra_in": sch["extra_in"]["p"],
             "extra_out": sch["extra_out"]["p"], "nested": any(len(p) > 1 for p in ps), "list_step": any(k["g"] == "idx" for p in ps for k in p),
-            "n_overlays": len(case["ovs"]), "skipped": sum(1 for p in ps if not p)}
+            "n_overlays": len(case["ovs"]), "skipped": sum(1 for p in ps if not p),
+            # an output-only field defined before a constructor parameter: the two directions number the positions differently
+            "out_only_before_input_field": any(out_only(f) and any(not out_only(g) for g in case["shape"][i + 1:]) for i, f in enumerate(case["shape"])),
+            "out_only": any(out_only(f) for f in case["shape"])}
 
 
 STRICT_EXC = [KeyError, KeyError, AttributeError, ValueError, TypeError, LookupError]
@@ -519,6 +539,8 @@ def run_program(case: dict, seed: int, names: Names, out: dict, kind=None) -> No
                 sig["type_predicate"] = True
             if getattr(names, "reversed_names", False) and feats["aslist"]:
                 sig["definition_order_not_alphabetical"] = True
+        if feats["out_only"]:
+            sig["out_only_before_input_field"] = feats["out_only_before_input_field"]
         if getattr(names, "table_index", None) is not None:
             sig["names"] = names.table_index
         if extra_sig:
@@ -680,7 +702,7 @@ def run_program(case: dict, seed: int, names: Names, out: dict, kind=None) -> No
     if created and case["created_out"]:
         strict: dict = {}
         for dump in case["dumps"]:
-            vals = {names.field(f["id"]): render_data(v, shape, names) for f, v in zip(shape, dump["obj"])}
+            vals = {names.field(f["id"]): render_data(v, shape, names) for f, v in zip(shape, dump["obj"]) if not out_only(f)}
             vals = {k: (MISSING if v is ABSENT else v) for k, v in vals.items()}
             obj = construct(model_out, vals)
             if any(v["a"] == "bad" for v in dump["obj"]):
@@ -720,11 +742,15 @@ def run_program(case: dict, seed: int, names: Names, out: dict, kind=None) -> No
                         {"omit": any(ov["omit"]["o"] for ov in case["ovs"])}, dt=dtname)
                 # ---- C01 on the real library: load(dump(x)) == x wherever the model promises it (same paths both ways, nothing
                 # that the loader forbids is merged in, every field part of the layout) --------------------------------
-                if (dtname in loaders and not kwargs_prog and case["created_in"] and case["paths_in"] == case["paths_out"]
+                io = [i for i, f in enumerate(shape) if not out_only(f)]
+                if (dtname in loaders and not kwargs_prog and case["created_in"]
+                        and all(case["paths_in"][i] == case["paths_out"][i] for i in io)
+                        # what an output-only field writes is unknown data for the loader (MC_Layout.LoaderDumperAgree)
+                        and (case["sch"]["extra_in"]["p"] == "skip" or not any(out_only(f) and case["paths_out"][i] for i, f in enumerate(shape)))
                         and (case["sch"]["extra_out"]["p"] == "skip" or case["sch"]["extra_in"]["p"] != "forbid")
-                        and all(p or (case["sch"]["extra_in"]["p"] == "target" and case["sch"]["extra_out"]["p"] == "target"
-                                      and case["sch"]["extra_in"]["f"] == case["sch"]["extra_out"]["f"] == i)
-                                for i, p in enumerate(case["paths_in"], start=1))):
+                        and all(case["paths_in"][i - 1] or (case["sch"]["extra_in"]["p"] == "target" and case["sch"]["extra_out"]["p"] == "target"
+                                                            and case["sch"]["extra_in"]["f"] == case["sch"]["extra_out"]["f"] == i)
+                                for i in (j + 1 for j in io))):
                     out["runs"] += 1
                     try:
                         back = loaders[dtname](got)
@@ -882,9 +908,13 @@ def _worker(items) -> dict:
                         for kn in kinds:
                             if not every_variant and any(v.name == kn and i % 3 != hv % 3 for i, v in enumerate(VARIANT_KINDS)):
                                 continue          # a variant spelling: met by one program in three
-                            why = BY_NAME[kn].supports(case["shape"], case["sch"])
+                            why = BY_NAME[kn].out_only_unsupported(case["shape"]) or BY_NAME[kn].supports(case["shape"], case["sch"])
                             if case["sch"]["extra_in"]["p"] == "kwargs":
                                 why = "ExtraKwargs needs a constructor with **kwargs"
+                            if why is None and case["sch"]["aslist"] and program_features(case)["out_only_before_input_field"]:
+                                # every kind numbers the positions per direction (the recorded C03 finding): uniform among the kinds,
+                                # different from the model - compared by C03 / C01 on the dataclass, not kind by kind
+                                why = "as_list with an output-only field before a constructor parameter: the subspace of a recorded C03 finding"
                             if why is None:
                                 run_program(case, seed, names, out, BY_NAME[kn])
                                 out["by_kind"][kn] = out["by_kind"].get(kn, 0) + 1
